@@ -589,6 +589,56 @@ def run_model_balanced(programs, costs):
 
 
 # ====================================================================== the check
+def map_stream(rep, rng, count):
+    """Oracle-only stream on the real objects: bubbles / Tensor.map with Python functions whose
+    return TYPE depends on the entry (int for some entries, float, Fraction or complex for others):
+    the tensor of a bubble is the function applied entry by entry to the tensor of its inside,
+    whatever the order of the entries."""
+    import numpy
+    from fractions import Fraction
+    from discopy import tensor
+    from discopy.tensor import Dim, Tensor
+    funcs = [("x / 2 if x else 0", lambda x: x / 2 if x else 0),
+             ("0 if x < 2 else x + 0.5", lambda x: 0 if x < 2 else x + 0.5),
+             ("x if x % 2 == 0 else x * 1j", lambda x: x if x % 2 == 0 else x * 1j),
+             ("Fraction(x, 3) if x else 0", lambda x: Fraction(int(x), 3) if x else 0),
+             ("int(not x)", lambda x: int(not x)),
+             ("x ** 2 + 1", lambda x: x ** 2 + 1)]
+    bad = 0
+    for k in range(count):
+        dom = [rng.choice([2, 3]) for _ in range(rng.randint(0, 1))]
+        cod = [rng.choice([2, 3]) for _ in range(rng.randint(1, 2))]
+        size = int(numpy.prod(dom or [1])) * int(numpy.prod(cod))
+        entries = [rng.randint(0, 4) for _ in range(size)]
+        if k % 3 == 0:
+            entries[0] = 0                      # the first entry decides what numpy.vectorize would infer
+        name, fn = funcs[k % len(funcs)]
+        rep.count("stream:map")
+        what = None
+        try:
+            want = [fn(x) for x in entries]
+            t = Tensor(Dim(*dom), Dim(*cod), entries)
+            got = list(numpy.asarray(t.map(fn).array, dtype=object).flatten())
+            if len(got) != len(want) or any(complex(a) != complex(b) for a, b in zip(got, want)):
+                what = "Tensor.map(%s) on %r gives %r, entry-wise application gives %r" % (name, entries, got, want)
+            else:
+                box = tensor.Box("b", Dim(*dom), Dim(*cod), entries)
+                ev = box.bubble(func=fn).eval()
+                got2 = list(numpy.asarray(ev.array, dtype=object).flatten())
+                if len(got2) != len(want) or any(complex(a) != complex(b) for a, b in zip(got2, want)):
+                    what = "bubble(func=%s).eval() on %r gives %r, entry-wise application gives %r" % (
+                        name, entries, got2, want)
+        except Exception as exc:   # noqa
+            what = "Tensor.map / bubble with %s raised %s: %s" % (name, type(exc).__name__, exc)
+        if what:
+            bad += 1
+            rep.count("oracle:map:FAIL")
+            if bad <= 3:
+                rep.violation(what, {"dom": dom, "cod": cod, "entries": entries, "func": name})
+        else:
+            rep.count("oracle:map:pass")
+
+
 def run(tier, seed):
     import tfun_impl as tf
     import tensor_impl as ti
@@ -804,6 +854,7 @@ def run(tier, seed):
     if tf.COUNTS["timeout"]:
         rep.count("impl:timeout", tf.COUNTS["timeout"])
 
+    map_stream(rep, random.Random(seed + 909), 60 if tier == "quick" else 1000)
     # ---------------------------------------------------------------- settle
     found = any(f for _, _, f in rep.violations)
     dis = rep.extra.get("disagreements", [])
